@@ -13,6 +13,7 @@ import (
 	"strconv"
 	"strings"
 	"testing"
+	"time"
 
 	"github.com/junioryono/godi/v4/internal/reflection"
 )
@@ -595,5 +596,44 @@ func TestReplay_GraphSortIgnoresStaleDegrees(t *testing.T) {
 	}
 	if invented > 0 {
 		t.Errorf("REPLAY-CONFIRMED DependencyGraph.TopologicalSort#post[gives_up_only_without_ranking]: in %d of 200 runs TopologicalSort reported a cycle in the acyclic graph 0 -> 1 built by deferred adds", invented)
+	}
+}
+
+type ofgA struct{}
+type ofgB struct{}
+type ofgC struct{}
+type ofgProv struct {
+	t    reflect.Type
+	deps []reflect.Type
+}
+
+func (p *ofgProv) GetType() reflect.Type { return p.t }
+func (p *ofgProv) GetKey() any           { return nil }
+func (p *ofgProv) GetGroup() string      { return "" }
+func (p *ofgProv) GetDependencies() []*reflection.Dependency {
+	var ds []*reflection.Dependency
+	for i, d := range p.deps {
+		ds = append(ds, &reflection.Dependency{Type: d, Index: i})
+	}
+	return ds
+}
+
+// C19 (termination, not expressible as a partial-correctness obligation): on a graph with a cycle that is reachable from a node without dependencies (such graphs exist after deferred adds: DetectCycles
+// reports the cycle, it does not remove it) CalculateDepths relaxes for ever - holding the write lock, so every other query blocks too.
+func TestReplay_GraphDepthsTerminateOnACyclicGraph(t *testing.T) {
+	a, b, c := reflect.TypeOf(ofgA{}), reflect.TypeOf(ofgB{}), reflect.TypeOf(ofgC{})
+	g := NewDependencyGraph()
+	g.AddProviderDeferred(&ofgProv{t: c})
+	g.AddProviderDeferred(&ofgProv{t: a, deps: []reflect.Type{b}})
+	g.AddProviderDeferred(&ofgProv{t: b, deps: []reflect.Type{a, c}})
+	if g.DetectCycles() == nil {
+		t.Fatal("expected a cycle")
+	}
+	done := make(chan struct{})
+	go func() { g.CalculateDepths(); close(done) }()
+	select {
+	case <-done:
+	case <-time.After(2 * time.Second):
+		t.Errorf("REPLAY-CONFIRMED DependencyGraph.CalculateDepths[termination on a cyclic graph]: CalculateDepths did not return within 2s on the cyclic graph a->b, b->a, b->c")
 	}
 }
